@@ -107,7 +107,7 @@ func setHooks(on bool) {
 
 type step struct {
 	A    int    `json:"a"`
-	Op   string `json:"op"` // goc gt rel lock unlock del visit ret retry
+	Op   string `json:"op"` // goc gt rel lock unlock del visit ret retry shutdown
 	S    int    `json:"s,omitempty"`
 	T    int    `json:"t,omitempty"`
 	F    bool   `json:"f,omitempty"`  // goc: create; gt: lock; visit: skipping; ret: cont
@@ -142,6 +142,8 @@ type engine struct {
 	deletedBy []int
 	client    [][]int // client[a][s]: acquisitions actor a has to Release
 	vown      [][]int // vown[a][s]: acquisitions a's running Visit gives back itself
+	orphan    []int   // orphan[s]: acquisitions of a waiting Visit that was ended by Shutdown without its final section (never given back)
+	down      bool    // Shutdown() was called
 	acts      []*actor
 	lines     []string
 	impl      []string
@@ -195,6 +197,7 @@ func (e *engine) addSrc(src string, t int) int {
 	e.excl = append(e.excl, false)
 	e.locker = append(e.locker, -1)
 	e.deletedBy = append(e.deletedBy, -1)
+	e.orphan = append(e.orphan, 0)
 	for a := range e.client {
 		e.client[a] = append(e.client[a], 0)
 		e.vown[a] = append(e.vown[a], 0)
@@ -204,7 +207,7 @@ func (e *engine) addSrc(src string, t int) int {
 
 func (e *engine) holds(a, s int) int { return e.client[a][s] + e.vown[a][s] }
 func (e *engine) total(s int) int {
-	n := 0
+	n := e.orphan[s]
 	for a := range e.client {
 		n += e.holds(a, s)
 	}
@@ -259,6 +262,9 @@ func b2s(b bool) string {
 
 // applicable tells whether the step follows the calling protocol in the current state (SPEC book-keeping)
 func (e *engine) applicable(st step) bool {
+	if st.Op == "shutdown" {
+		return !e.down // not an actor's step: Shutdown() takes the mutex once, whoever is parked
+	}
 	if st.A < 0 || st.A >= len(e.acts) {
 		return false
 	}
@@ -325,6 +331,9 @@ func (e *engine) visitEvent(a int, ev event) {
 		if !v.skipping {
 			e.line(fmt.Sprintf("vtry %d %d", a, s), "acq")
 			e.vown[a][s]++
+			if e.down {
+				e.specFail("acquired-after-shutdown", "a waiting Visit acquired a partition in a per-item section after Shutdown()", fmt.Sprintf("src=%d", s), "Visit returns WrongState")
+			}
 		}
 	case evSpin:
 		v.spinning = true
@@ -339,6 +348,20 @@ func (e *engine) visitEvent(a int, ev event) {
 			e.specFail("waits-without-lock", "Visit waits although no pending partition is exclusively locked", "spinning", "progress")
 		}
 	case evDone:
+		if ev.err == rerrors.WrongState {
+			// the waiting flavour noticed ims.done in a per-item section: it returns without its final locked section,
+			// what it acquired and has not handed to the client stays acquired for ever (the process is about to exit)
+			if !e.down {
+				e.specFail("visit-error", "Visit returned WrongState although Shutdown() was not called", ev.err.Error(), "nil")
+			}
+			e.line(fmt.Sprintf("vdown %d", a), "down")
+			for s := range e.vown[a] {
+				e.orphan[s] += e.vown[a][s]
+				e.vown[a][s] = 0
+			}
+			ac.visit, ac.vis = nil, nil
+			return
+		}
 		if ev.err != nil {
 			e.specFail("visit-error", "Visit returned an error", ev.err.Error(), "nil")
 		}
@@ -367,6 +390,9 @@ func errName(err error) string {
 	case rerrors.WrongState:
 		return "wrongstate"
 	}
+	if strings.Contains(err.Error(), "shut-down") {
+		return "down"
+	}
 	return "err:" + err.Error()
 }
 
@@ -374,6 +400,14 @@ func errName(err error) string {
 func (e *engine) exec(st step) bool {
 	if e.dead || !e.applicable(st) {
 		return false
+	}
+	if st.Op == "shutdown" {
+		e.steps = append(e.steps, st)
+		e.svc.(interface{ Shutdown() }).Shutdown()
+		e.line("shutdown", "ok")
+		e.down = true
+		e.check()
+		return true
 	}
 	a := st.A
 	ac := e.acts[a]
@@ -457,6 +491,38 @@ func (e *engine) exec(st step) bool {
 			e.deletedBy[st.S] = a
 		}
 	case "visit":
+		if e.down {
+			// Visit returns "already shut-down." from its first locked section: no visit starts
+			sel := []string{}
+			for _, t := range st.Sel {
+				sel = append(sel, fmt.Sprint(t))
+			}
+			e.line(strings.TrimSpace(fmt.Sprintf("vbegin %d %s %s %s", a, b2s(st.F), b2s(st.F2), strings.Join(sel, " "))), "down")
+			flags := 0
+			if st.F {
+				flags |= tindex.VF_SKIP_IF_LOCKED
+			}
+			if st.F2 {
+				flags |= tindex.VF_DO_NOT_RELEASE
+			}
+			src := selSource(st.Sel)
+			t, ev := e.start(func(t *task) {
+				err := e.svc.Visit(src, func(tags tag.Set, jrnl string) bool {
+					t.ev <- event{kind: evCb, src: jrnl}
+					return <-t.resume
+				}, flags)
+				t.ev <- event{kind: evDone, err: err}
+			})
+			if ev.kind == evTimeoutK {
+				return true
+			}
+			if ev.kind != evDone || ev.err == nil || errName(ev.err) != "down" {
+				e.specFail("visit-after-shutdown", "a Visit started after Shutdown() did not return the shut-down error at once", fmt.Sprintf("event=%d err=%v", ev.kind, ev.err), "error \"already shut-down.\"")
+				ac.visit = t
+				e.dead = true
+			}
+			break
+		}
 		v := &visitSt{skipping: st.F, dnr: st.F2, pending: map[int]bool{}, cbSrc: -1}
 		inSel := map[int]bool{}
 		for _, t := range st.Sel {
@@ -539,6 +605,9 @@ func (e *engine) opEvent(a int, ev event) {
 			}
 			e.client[a][s]++
 			e.line(l, fmt.Sprintf("ok %d", s))
+			if e.down {
+				e.specFail("acquired-after-shutdown", "an acquisition by tags succeeded after Shutdown()", fmt.Sprintf("src=%d", s), "error \"already shut-down.\"")
+			}
 		} else {
 			e.line(l, errName(ev.err))
 			if ev.err == nil {
@@ -547,6 +616,9 @@ func (e *engine) opEvent(a int, ev event) {
 				}
 				if st.F {
 					e.client[a][st.S]++
+					if e.down {
+						e.specFail("acquired-after-shutdown", "GetJournalTags(lock) succeeded after Shutdown()", fmt.Sprintf("src=%d", st.S), "error \"already shut-down.\"")
+					}
 				}
 			}
 		}
@@ -568,6 +640,9 @@ func (e *engine) implState() string {
 		for s := range e.client[a] {
 			n += e.holds(a, s)
 		}
+	}
+	for _, o := range e.orphan {
+		n += o
 	}
 	parts = append(parts, fmt.Sprintf("holds=%d", n), "panicked=0")
 	return strings.Join(parts, " ")
@@ -651,10 +726,10 @@ func (e *engine) finish() {
 			return // (a panicking Release leaves the service mutex locked)
 		}
 		r, x, ex := tindex.VerifState(e.svc, src)
-		if ex && (r != 0 || x) {
-			e.specFail("leak", "activity stopped but readers is not back to 0 (or the partition is still exclusively locked)", fmt.Sprintf("src=%d readers=%d exclusive=%v", s, r, x), "readers=0")
+		if ex && (r != e.orphan[s] || x) {
+			e.specFail("leak", "activity stopped but readers is not back to 0 (+ what a Visit interrupted by Shutdown kept; or the partition is still exclusively locked)", fmt.Sprintf("src=%d readers=%d exclusive=%v", s, r, x), fmt.Sprintf("readers=%d", e.orphan[s]))
 		}
-		if ex {
+		if ex && !e.down {
 			// it can be locked exclusively (and so deleted) now
 			a := 0
 			e.exec(step{A: a, Op: "gt", S: s, F: true, Note: "probe"})
@@ -693,6 +768,18 @@ func (e *engine) abandon() {
 // generator
 
 func gen(e *engine, rng *vh.Rng, nTags int) step {
+	if !e.down {
+		// at most one Shutdown per schedule (~20-30 % of the schedules); aimed at the moments a waiting Visit is in progress
+		den := 340
+		for _, ac := range e.acts {
+			if ac.vis != nil && !ac.vis.skipping {
+				den = 16
+			}
+		}
+		if rng.Chance(1, den) {
+			return step{Op: "shutdown"}
+		}
+	}
 	a := rng.Intn(len(e.acts))
 	ac := e.acts[a]
 	if ac.op != nil || (ac.vis != nil && ac.vis.spinning) {
@@ -783,6 +870,14 @@ func runSchedule(c schedCase, rng *vh.Rng, n int, sec *vh.Section) schedOut {
 	for _, s := range e.steps[:nGen] {
 		res.Dist(sec, s.Op)
 		kinds[s.Op] = true
+	}
+	if kinds["shutdown"] {
+		res.Dist(sec, "schedules-with-shutdown")
+	}
+	for _, l := range e.lines {
+		if strings.HasPrefix(l, "vdown ") {
+			res.Dist(sec, "visit-interrupted-by-shutdown")
+		}
 	}
 	key := ""
 	if nGen >= 5 && len(kinds) >= 3 {
